@@ -20,8 +20,8 @@ import (
 
 func init() {
 	register(&Property{
-		ID:    "C17",
-		Level: "other",
+		ID:      "C17",
+		Level:   "other",
 		Explain: "Decides, for the table paragraph transformer and its row builder (found by role: the ParagraphTransformer that constructs a Table node, and the function it calls that returns a TableRow): (G) the table node is constructed only where the header row is non-nil and len(alignments) equals the header's child count; (P) in header mode the row builder appends only cells scanned from the source — the padding loop is unreachable — so that count is the number of cells written in the header line; (R) in every loop of the row builder each iteration appends exactly one cell allocated in that iteration and advances the column counter by exactly one, a body-row cell is appended only where counter < len(alignments), and every return of a body row is reached only where counter >= len(alignments): by induction every body row has exactly len(alignments) cells — short rows padded, long rows truncated; (A) a scanned cell's alignment is alignments[counter] for the same counter; (I) no loop in the table code advances a sibling cursor through a node it detached in the same iteration (a truncation written as remove-while-iterating stops after the first cell); (H) the transformer appends exactly one header and otherwise only body rows built with the same alignments. Not decided: how cell text is split (escaped pipes, code spans), the delimiter-row grammar, rendering of thead/tbody; relies on C05-P/C13-P for ChildCount being the number of children.",
 		Trusted: []string{"AppendChild attaches exactly one child (C05-P)"},
 		Assumes: []string{"built-in table extension only"},
